@@ -71,6 +71,8 @@ func (dfComp) Exec(op string) (string, string, string, bool) {
 			res += dsNetMonSep + mon // the parent splits it off again (one line per op on the child's stdout)
 		}
 		return res, "", "net:" + class, nt
+	case strings.HasPrefix(op, "clihs "):
+		return dfCliHs(strings.TrimPrefix(op, "clihs "))
 	case strings.HasPrefix(op, "cli "):
 		return dfCli(strings.TrimPrefix(op, "cli "))
 	case strings.HasPrefix(op, "dec "), strings.HasPrefix(op, "enc "):
@@ -938,6 +940,30 @@ func (dfComp) Gen(r *Rand, tier string, emit func(string)) {
 
 	// ---------------- the communicator's handler (everything between the socket and onMessage and back)
 	dfHandlerGen(NewRand(r.Next()), tier, doms, emit)
+
+	// ---------------- the client's own handshake (record-type detection, version exchange, probes, option changes)
+	// with ONE answer of the real server replaced by a crafted payload: every command letter as the answer's first
+	// byte, bodies that are empty, one NUL, one 0xFF, valid Base32 of short byte strings, junk
+	{
+		dom := hexs([]byte("example.org"))
+		bodies := []string{"", "aa", "77", "aaaaaaaa", "99", "7777777w", "ab", "mfrgg", "\x00", "\xff\xff", strings.Repeat("a", 60)}
+		letters := "veoyzrclmVEOYZRCLM0."
+		whichQ := []string{"v 1", "y 1", "o 1", "z 1", "r 1", "* 1", "* 3", "* 9"}
+		n := 0
+		for _, wq := range whichQ {
+			for _, l := range letters {
+				for bi, b := range bodies {
+					n++
+					// quick: a diagonal slice of the grid; thorough: all of it
+					if tier != "thorough" && (n%7 != 0 && !(wq == "v 1" && bi < 4)) {
+						continue
+					}
+					body := strings.NewReplacer("\\x00", "\x00", "\\xff", "\xff").Replace(b)
+					emit("clihs " + dom + " " + wq + " " + hexs([]byte(string(l)+body)))
+				}
+			}
+		}
+	}
 }
 
 // dfLookupLabels: what a resolver, crawler or monitoring probe asks a zone -- every command letter in both cases
